@@ -136,6 +136,7 @@ def run(chk):
     # ---- structural: the child circuit argument is neither mutated nor retained (E2 dataflow) ----
     from ..effects import Analyzer, VIOLATING_PARTS
     from ..structural import vocabulary_rule
+    from .c19 import tracked_params
 
     an = Analyzer(repo)
     an.run()
@@ -148,6 +149,21 @@ def run(chk):
                fact={"effects": [e["how"] + " @ " + e["text"][:60] for e in effs[:3]]}, expect="the sub-circuit passed in is only read (a renamed *copy* is spliced)")
         kept = sorted({(slot, part) for (dst, slot, src, part) in s.stores if dst == "self" and src == param and part in VIOLATING_PARTS})
         chk.ob("C06.A.child-not-retained", f"{meth}::{param}", not kept, file=FILE, func=meth, fact={"retained_parts": kept}, expect="the parent keeps no reference to the child's graph / registry (only the shared BlackBox objects)")
+    # a BlackBox definition is shared by all its instances (and by copies of the circuit): nothing in the package may
+    # edit its pin sets after construction
+    n_bb = 0
+    for (rel, qual), sm in sorted(an.summ.items()):
+        if qual.startswith("BlackBox.__init__"):
+            continue
+        # only parameters known to be a Circuit / BlackBox / registry (an untyped helper parameter whose `.outputs()` result
+        # is popped is a Circuit's fresh set in every caller - the same tracked-kind filter as C19)
+        tr = tracked_params(an, (rel, qual))
+        effs = [e for e in sm.effects if e["part"] == "bbfield" and e["param"] in tr]
+        n_bb += 1
+        if effs or qual in ("Circuit.add_subcircuit", "Circuit.fill_blackbox", "Circuit.add_blackbox"):
+            chk.ob("C06.A.blackbox-definition-not-mutated", f"{rel}::{qual}", not effs, file=rel, func=qual, line=effs[0]["line"] if effs else None,
+                   fact={"effects": [e["how"] + " @ " + e["text"][:60] for e in effs[:3]], "functions_scanned": n_bb}, expect="the pin sets of a BlackBox object are never modified in place (the object is shared between instances)")
+    chk.floor("function summaries scanned for BlackBox pin-set edits", n_bb, 80)
     vocabulary_rule(chk, repo, "C06.S.vocabulary", [("tx.py", "strip_blackboxes"), ("tx.py", "strip_io"), ("tx.py", "strip_inputs"), ("tx.py", "subcircuit")])
     P = Package(repo)
     fa = repo.func(FILE, "Circuit.add_subcircuit")
@@ -224,11 +240,18 @@ def run(chk):
             p0.add_blackbox(bb, "inst", conns)
             p1 = p0.copy()
             snap = sc._snapshot()
+            bb_before = (set(bb.input_set), set(bb.output_set))
             r = P.call_method(FILE, "Circuit.fill_blackbox", p1, "inst", sc)
             n_eval += 1
             key = f"fill_blackbox::{cname}::{variant}"
             if r[0] != "return":
                 chk.ob("C06.F.fill_blackbox", key, False, file=FILE, func="Circuit.fill_blackbox", line=ff_.node.lineno, fact={"result": str(r)[:160]})
+                continue
+            if (bb.input_set, bb.output_set) != bb_before:
+                chk.ob("C06.F.fill_blackbox", key, False, file=FILE, func="Circuit.fill_blackbox", line=ff_.node.lineno,
+                       fact={"problem": "the shared BlackBox definition was modified by the fill", "inputs": sorted(bb.input_set), "outputs": sorted(bb.output_set), "before": [sorted(x) for x in bb_before]},
+                       expect="a BlackBox object is shared by its instances and is left as it was")
+                bb.input_set, bb.output_set = bb_before
                 continue
             ref = p0.copy()
             ref.fill_blackbox("inst", sc)
@@ -250,11 +273,16 @@ def run(chk):
         p0.add_blackbox(bbh, "inst", {"x": "A", "y": "B", "c": "T1"})
         p0.add_blackbox(bbh, other, {"x": "G", "y": "A", "s": "T2"})
         p1 = p0.copy()
+        pins_h = (set(bbh.input_set), set(bbh.output_set))
         r = P.call_method(FILE, "Circuit.fill_blackbox", p1, "inst", sc)
         n_eval += 1
         key = f"fill_blackbox::sibling instance named {other}"
         if r[0] != "return":
             chk.ob("C06.F.fill_blackbox", key, False, file=FILE, func="Circuit.fill_blackbox", line=ff_.node.lineno, fact={"result": str(r)[:160]})
+            continue
+        if (bbh.input_set, bbh.output_set) != pins_h:
+            chk.ob("C06.F.fill_blackbox", key, False, file=FILE, func="Circuit.fill_blackbox", line=ff_.node.lineno, fact={"problem": "the shared BlackBox definition was modified by the fill", "inputs": sorted(bbh.input_set), "outputs": sorted(bbh.output_set)})
+            bbh.input_set, bbh.output_set = set(pins_h[0]), set(pins_h[1])
             continue
         ref = p0.copy()
         ref.fill_blackbox("inst", sc)
@@ -264,6 +292,35 @@ def run(chk):
                 if f"{other}.{pin}" not in p1:
                     prob = {"problem": "a pin of another, still recorded instance disappeared", "pin": f"{other}.{pin}"}
         chk.ob("C06.F.fill_blackbox", key, prob is None, file=FILE, func="Circuit.fill_blackbox", line=ff_.node.lineno, fact=prob or {}, expect="only the filled instance's pins are renamed; other instances keep their pins")
+        # repeated instantiation: both instances of the one definition filled, in either order, and a third added afterwards
+        for order in (("inst", other), (other, "inst")):
+            bb2 = RefBlackBox("blk", sorted(sc.inputs()), sorted(sc.outputs()))
+            pins0 = (set(bb2.input_set), set(bb2.output_set))
+            q0, qr = parent(), parent()
+            for q, d in ((q0, bb2), (qr, bb2)):
+                q.add_blackbox(d, "inst", {"x": "A", "y": "B", "c": "T1"})
+                q.add_blackbox(d, other, {"x": "G", "y": "A", "s": "T2"})
+            key2 = f"fill_blackbox::both instances filled::{order[0]} then {order[1]}"
+            prob = None
+            for which in order:
+                r = P.call_method(FILE, "Circuit.fill_blackbox", q0, which, sc)
+                n_eval += 1
+                if r[0] != "return":
+                    prob = {"problem": f"filling {which} fails", "result": str(r)[:160]}
+                    break
+                if (bb2.input_set, bb2.output_set) != pins0:
+                    prob = {"problem": f"filling {which} modified the shared BlackBox definition", "inputs": sorted(bb2.input_set), "outputs": sorted(bb2.output_set)}
+                    bb2.input_set, bb2.output_set = set(pins0[0]), set(pins0[1])
+                    break
+                qr.fill_blackbox(which, sc)
+            if prob is None:
+                r = P.call_method(FILE, "Circuit.add_blackbox", q0, bb2, "late", {"x": "A"})
+                qr.add_blackbox(bb2, "late", {"x": "A"})
+                if r[0] != "return":
+                    prob = {"problem": "adding another instance of the same definition after a fill fails", "result": str(r)[:160]}
+            if prob is None:
+                prob = same_as_reference(q0, qr)
+            chk.ob("C06.F.fill_blackbox", key2, prob is None, file=FILE, func="Circuit.fill_blackbox", line=ff_.node.lineno, fact=prob or {}, expect="instances of one BlackBox definition can be filled in any order and the definition stays usable")
     sc = next(children())[1]
     bb_bad = RefBlackBox("blk", ["x"], ["c", "s"])
     p1 = parent()
